@@ -75,14 +75,14 @@ func payloadOf(tag string) []byte {
 // survives from an earlier signature shows.
 func dress(req *signature.SignRequest, tag string) {
 	if tag == "A" || tag == "P" {
-		req.SigningAgent = "agent/" + tag
+		req.SigningAgent = "agent/" + tag + "\twith a tab\n"
 		req.ExtendedSignedAttributes = []signature.Attribute{{Key: "io.c20.crit." + tag, Critical: true, Value: "c"}, {Key: "io.c20.plain", Value: tag}}
 	}
 }
 
 func dressWant(w *envcmp.Want, tag string) *envcmp.Want {
 	if tag == "A" || tag == "P" {
-		w.Agent = "agent/" + tag
+		w.Agent = "agent/" + tag + "\twith a tab\n"
 		w.Attrs = []signature.Attribute{{Key: "io.c20.crit." + tag, Critical: true, Value: "c"}, {Key: "io.c20.plain", Value: tag}}
 	}
 	return w
